@@ -10,7 +10,7 @@ use vc_onnxgen::model::*;
 /// ([] / [1] / [1;r] / [1;r+1] / full), 2 commuted operands (`0-x`, `1/x` must not fuse),
 /// 3 int32 data, 4 two identities in a row.
 pub fn identity(g: &mut G) -> Vid {
-    g.nk = 5;
+    g.knobs(&["val", "cshape", "swap", "int32", "twice"]);
     let shape = g.base_shape(0, 4);
     let int = g.kc(3, 2) == 1;
     let mut x = if int { g.input(DType::I32, &shape) } else { g.ctx_input(&shape) };
@@ -52,7 +52,7 @@ pub fn identity(g: &mut G) -> Vid {
 /// knobs: 0 input dtype (f32 / i32 / i64 / bool), 1 first cast target (same / others),
 /// 2 second cast (none / back to the input dtype / same target again).
 pub fn cast_elim(g: &mut G) -> Vid {
-    g.nk = 3;
+    g.knobs(&["indtype", "to", "second"]);
     let shape = g.base_shape(0, 4);
     let types = [DType::F32, DType::I32, DType::I64, DType::Bool];
     let in_dt = types[g.kc(0, 4)];
@@ -103,7 +103,7 @@ pub(crate) fn slice_len(l: i64, start: i64, end: i64, step: i64) -> usize {
 /// 2 extra Slice inputs (none / axes / axes+steps 1 / steps 2 / steps -1), 3 Shape start/end attributes,
 /// 4 int32 starts/ends. Free choice: Shape of the graph input itself or of the context value.
 pub fn shape_slice(g: &mut G) -> Vid {
-    g.nk = 5;
+    g.knobs(&["start", "end", "extra", "shapeattr", "int32idx"]);
     let shape = g.base_shape(1, 4);
     let r = shape.len() as i64;
     let raw = g.input(DType::F32, &shape);
@@ -164,7 +164,7 @@ pub fn shape_slice(g: &mut G) -> Vid {
 /// knobs: 0 Shape attributes (none / start=1 / end=-1), 1 Shape source (sigmoid output / x / graph input / product),
 /// 2 how the shape is consumed (graph output / Reshape target / Gather element / ConstantOfShape).
 pub fn compute_shape(g: &mut G) -> Vid {
-    g.nk = 3;
+    g.knobs(&["shapeattr", "src", "use"]);
     let shape = g.base_shape(1, 4);
     let r = shape.len();
     let raw = g.input(DType::F32, &shape);
@@ -210,7 +210,7 @@ pub fn compute_shape(g: &mut G) -> Vid {
 /// knobs: 0 numerator (1 / 2 / 1.01 / 0.5), 1 numerator shape ([] / [1] / [1;r] / [1;r+1] / full),
 /// 2 commuted (`x / 1`), 3 int32 data.
 pub fn reciprocal(g: &mut G) -> Vid {
-    g.nk = 4;
+    g.knobs(&["num", "cshape", "swap", "int32"]);
     let shape = g.base_shape(0, 4);
     if g.kc(3, 2) == 1 {
         let raw = g.input(DType::I32, &shape);
@@ -238,7 +238,7 @@ pub fn reciprocal(g: &mut G) -> Vid {
 /// knobs: 0 axes ([-1] / [r-1] / [0] / [0,r-1] / [] / all), 1 keepdims=0, 2 noop_with_empty_axes=1,
 /// 3 axes as attribute, 4 int32 axes.
 pub fn reduce_mean_axes(g: &mut G) -> Vid {
-    g.nk = 5;
+    g.knobs(&["axes", "keepdims0", "noop", "axesattr", "int32axes"]);
     let shape = g.base_shape(1, 4);
     let r = shape.len() as i64;
     let x = g.ctx_input(&shape);
